@@ -639,6 +639,23 @@ func (m *monitors) onCampaign(r *replica, info server.CampaignInfo) {
 	if contains(v.NonVotings, r.id) || contains(v.Witnesses, r.id) || r.cfg.IsWitness {
 		m.violation("C18", "non-voter-campaigns", fmt.Sprintf("replica %d (non-voting or witness) launched a campaign in term %d", r.id, info.Term))
 	}
+	// a replica that holds a committed but not yet applied membership change
+	// still operates under the old membership (changes take effect when
+	// applied): if it campaigns it can be elected by a quorum of that old
+	// membership which does not intersect the real one
+	if !info.PreVote && r.alive && r.rsm != nil {
+		applied := r.rsm.GetLastApplied()
+		l := m.log(r)
+		for i := applied + 1; i <= v.Committed; i++ {
+			if e, ok := l.ents[i]; ok && e.Typ == pb.ConfigChangeEntry {
+				what := fmt.Sprintf("replica %d launches a campaign for term %d while the membership change at index %d is committed (commit %d) but not applied (applied %d)", r.id, info.Term, i, v.Committed, applied)
+				m.violation("C07", "campaign-with-committed-unapplied-config-change", what)
+				m.violation("C03", "campaign-with-committed-unapplied-config-change", what)
+				break
+			}
+		}
+		m.count("campaign_pending_change_checks", 1)
+	}
 	if !contains(v.Voters, r.id) {
 		m.violation("C18", "non-member-campaigns", fmt.Sprintf("replica %d launched a campaign in term %d but is not a voting member in its own view %v", r.id, info.Term, v.Voters))
 	}
@@ -802,6 +819,8 @@ func (m *monitors) checkReadAnswer(r *replica, ctx pb.SystemCtx, index uint64, t
 			}
 		}
 		if n < v.Quorum {
+			m.violation("C18", "read-confirmed-without-voting-quorum",
+				fmt.Sprintf("leader %d (term %d) answers read context %v with leadership confirmations from %d voting members (incl. itself), quorum of voters+witnesses is %d", r.id, term, ctx, n, v.Quorum))
 			m.violation("C06", "read-answered-without-quorum-confirmation",
 				fmt.Sprintf("leader %d (term %d) answers read context %v but only %d voting members (incl. itself) confirmed its leadership after it received the request, quorum is %d", r.id, term, ctx, n, v.Quorum))
 		}
@@ -1034,6 +1053,10 @@ func (m *monitors) onApplyUpdate(r *replica, e pb.Entry, result sm.Result, rejec
 	}
 	op := &m.ops[oi]
 	if op.Outcome == linz.OK {
+		if m.s.opt.AllowDup {
+			m.count("noop_session_proposal_applied_twice_under_message_duplication", 1)
+			return
+		}
 		m.violation("C12", "proposal-completed-twice", fmt.Sprintf("proposal %d completed twice at replica %d", e.Key, r.id))
 		return
 	}
